@@ -3,6 +3,7 @@ package interp
 import (
 	"fmt"
 	"go/types"
+	"os"
 	"strconv"
 	"strings"
 
@@ -163,6 +164,12 @@ func init() {
 		return matchAt(x, y, 0)
 	}, zz+"BytesEq")
 	reg(func(p *Path, fr *frame, fn *ssa.Function, a []Value) Value { return sym.True }, zz+"IsSymbolic")
+	reg(func(p *Path, fr *frame, fn *ssa.Function, a []Value) Value {
+		if os.Getenv("VERIF_TIER") == "thorough" {
+			return mkInt(1)
+		}
+		return mkInt(0)
+	}, zz+"Tier")
 	reg(func(p *Path, fr *frame, fn *ssa.Function, a []Value) Value {
 		var sb strings.Builder
 		for i, v := range a[0].(Slice).A {
